@@ -5,7 +5,6 @@ package main
 // own log() calls into markers/outputs, and one function that runs a list of scripts the way regbot does.
 
 import (
-	"bytes"
 	"context"
 	"crypto/sha256"
 	"encoding/hex"
@@ -533,8 +532,8 @@ func c19Catalog(req *http.Request) (*http.Response, error) {
 		// olareg has no catalog API; a fixed answer makes repo.ls usable in scripts
 		body := `{"repositories":["external","testrepo"]}`
 		return &http.Response{StatusCode: 200, Status: "200 OK", Proto: "HTTP/1.1", ProtoMajor: 1, ProtoMinor: 1,
-			Header:  http.Header{"Content-Type": []string{"application/json"}, "Content-Length": []string{strconv.Itoa(len(body))}},
-			Body:    io.NopCloser(strings.NewReader(body)), ContentLength: int64(len(body)), Request: req}, nil
+			Header: http.Header{"Content-Type": []string{"application/json"}, "Content-Length": []string{strconv.Itoa(len(body))}},
+			Body:   io.NopCloser(strings.NewReader(body)), ContentLength: int64(len(body)), Request: req}, nil
 	}
 	return nil, nil
 }
@@ -640,5 +639,3 @@ func c19Trunc(l []string, n int) []string {
 	}
 	return l
 }
-
-var _ = bytes.NewReader
